@@ -16,3 +16,16 @@ prop("C16",
          "no thread interleavings are explored",
      ],
      explanation="both get_and_increment_sequence_counter bodies proved against the successor spec for every counter state satisfying the representation invariant (inductive); call-site range obligations for every request factory")
+
+prop("C02",
+     level="proof",
+     trusted_base=["string axioms: int(format(n, spec)) == n for spec in ('', '02'), and 'HH:MM'.split(':') separates the two integer renderings; int(x / 2**k) == x >> k for 0 <= x < 2**53 (IEEE-754 scaling by a power of two is exact) -- each validated against CPython on 0..65535 in the thorough tier"],
+     assumptions=["precondition: the label written is representable in the item's bit field (C18 well-formedness); the two shipped items violating it are C18 known findings",
+                  "the device applies a write by storing the big-endian word at the written position (spec function apply_write)"],
+     explanation="per accessor shape: _set_value / async_set_value proved against write-addresses-item, word-fits, bit-level frame, read-back via the real _get_value on the spliced block")
+
+prop("C18",
+     level="proof",
+     ground=[tables.c18_ground],
+     assumptions=["the layout pinned in tables/pinned_layout.json was generated from the audited commit 236b7b1 by `python3-vt -m pyvc.tables pin`"],
+     explanation="finite space enumerated completely: every item of every table module is read from the AST of the working tree (all arguments are literals), the real accessor constructor is executed on every distinct shape to derive length/format/bitmask, and each well-formedness / naming / pinned-layout obligation is evaluated")
